@@ -487,6 +487,18 @@ func depthSweepPart(ws []*numWriter, rng *rand.Rand, nrand int, full bool, part,
 			y := bd.SignedValue(x)
 			w.emit(&NEvent{Op: "ClipS", B: b, X: numOfI64(x), Y: numOfI64(y), Z: numOfI64(bd.SignedValue(y))})
 		}
+		// the two clipping functions alternate (unsigned first) on a few values of this depth: a result may depend on
+		// the depth and the value only, not on which function was called before
+		if b > 0 {
+			alt := depthValuesS(rng, b, 2)
+			for i := 0; i < len(alt); i += 1 + len(alt)/12 {
+				u := uint64(alt[i])
+				yu := bd.UnsignedValue(u)
+				w.emit(&NEvent{Op: "ClipU", B: b, X: numOfU64(u), Y: numOfU64(yu), Z: numOfU64(bd.UnsignedValue(yu))})
+				ys := bd.SignedValue(alt[i])
+				w.emit(&NEvent{Op: "ClipS", B: b, X: numOfI64(alt[i]), Y: numOfI64(ys), Z: numOfI64(bd.SignedValue(ys))})
+			}
+		}
 		ui := intValues[uint64](rng, nrand)
 		if !full && b > 0 {
 			ui = depthValuesU(rng, b, nrand)
